@@ -34,6 +34,8 @@ type ChainExec struct {
 	Replicas    []*Stack
 	// Wrap, if set, decorates the databases of the main stack (crash injection)
 	Wrap func(name string, db dbm.DB) dbm.DB
+	// PartSize of stored part sets (0 = default)
+	PartSize int
 }
 
 // ContractAddr is the address of the test contract present at genesis when `chain ... code=1`.
@@ -44,6 +46,15 @@ var ContractAddr = common.HexToAddress("0x00000000000000000000000000000000c0dec0
 var TestContract = common.FromHex("60003560001a8060ff146025573381554381600101558060070281600201556000600" + "0a1005b60006000fd")
 
 var Unit = big.NewInt(1e10)
+
+// CallTransferGas is the value-proportional gas a call of a contract carrying `v` units must at least offer.
+func CallTransferGas(v int64) uint64 { return types.CalNewAmountGas(units(v), types.EverContractLiankeFee) }
+
+// CallIntrinsicGas is the intrinsic gas of the one-byte call of the test contract.
+func CallIntrinsicGas() uint64 {
+	g, _ := types.IntrinsicGas([]byte{1}, false, cfg.EvmGasRate)
+	return g
+}
 
 func units(n int64) *big.Int { return new(big.Int).Mul(big.NewInt(n), Unit) }
 
@@ -174,7 +185,7 @@ func (c *ChainExec) Exec(op string) string {
 		for _, r := range c.Replicas {
 			r.Close()
 		}
-		*c = ChainExec{AfterCommit: c.AfterCommit, ReplicaOpts: c.ReplicaOpts, Wrap: c.Wrap}
+		*c = ChainExec{AfterCommit: c.AfterCommit, ReplicaOpts: c.ReplicaOpts, Wrap: c.Wrap, PartSize: c.PartSize}
 		return "ok"
 	case "chain":
 		SeedCrypto(uint64(argI(toks, "seed", 1)))
@@ -194,6 +205,7 @@ func (c *ChainExec) Exec(op string) string {
 			o.Code = map[common.Address][]byte{ContractAddr: TestContract}
 		}
 		o.Wrap = c.Wrap
+		o.PartSize = c.PartSize
 		s, err := NewStack(o)
 		if err != nil {
 			return "err " + err.Error()
@@ -227,7 +239,7 @@ func (c *ChainExec) Exec(op string) string {
 		return c.admit("xfer", tx, err)
 	case "call": // call of the genesis test contract with one byte of calldata
 		from := c.Accts[argI(toks, "from", 0)]
-		tx, err := pricedTx(uint64(argI(toks, "nonce", 0)), ContractAddr, big.NewInt(0), uint64(argI(toks, "gas", 1000000)), gasPrice(toks),
+		tx, err := pricedTx(uint64(argI(toks, "nonce", 0)), ContractAddr, units(argI(toks, "value", 0)), uint64(argI(toks, "gas", 1000000)), gasPrice(toks),
 			[]byte{byte(argI(toks, "c", 1))})
 		if err == nil {
 			err = tx.Sign(types.GlobalSTDSigner, from.Key)
@@ -257,6 +269,20 @@ func (c *ChainExec) Exec(op string) string {
 			return "noinput"
 		}
 		in := *w.Outs[k]
+		// more=<i,j,…>: further inputs (indices into the wallet's outputs), possibly repeating one — a transaction that names the
+		// same key image twice, adjacent or not; their amounts add to what the transaction may spend
+		var extra []*OwnedOut
+		if ms := argS(toks, "more"); ms != "" {
+			for _, x := range strings.Split(ms, ",") {
+				j, err := strconv.Atoi(x)
+				if err != nil || j < 0 || j >= len(w.Outs) {
+					return "noinput"
+				}
+				o := *w.Outs[j]
+				extra = append(extra, &o)
+				in.Amount = new(big.Int).Add(in.Amount, o.Amount)
+			}
+		}
 		if cl := argI(toks, "claim", -1); cl >= 0 {
 			in.Amount = units(cl) // the spender lies about the amount of the output it spends
 		}
@@ -312,7 +338,12 @@ func (c *ChainExec) Exec(op string) string {
 				dests = append(dests, w.Dest(change))
 			}
 		}
-		tx, err := BuildUin(w, []*OwnedOut{&in}, dests, c.LKC, common.EmptyAddress)
+		ins := []*OwnedOut{&in}
+		if len(extra) > 0 {
+			first := *w.Outs[k] // the first input keeps its own amount; `in` carries the sum for the balance of the outputs
+			ins = append([]*OwnedOut{&first}, extra...)
+		}
+		tx, err := BuildUin(w, ins, dests, c.LKC, common.EmptyAddress)
 		if err == nil {
 			switch argS(toks, "tamper") {
 			case "outpk":
@@ -483,7 +514,7 @@ func (c *ChainExec) markSpent(img lktypes.Key) {
 func (c *ChainExec) Supply() (total *big.Int, pool *big.Int, tok *big.Int) {
 	st := c.S.App.GetLatestStateDB()
 	total, pool, tok = new(big.Int), new(big.Int), new(big.Int)
-	addrs := []common.Address{cfg.ContractFoundationAddr, common.EmptyAddress, c.coin}
+	addrs := []common.Address{cfg.ContractFoundationAddr, common.EmptyAddress, c.coin, ContractAddr}
 	for _, a := range c.Accts {
 		addrs = append(addrs, a.Addr)
 	}
@@ -521,5 +552,6 @@ func (c *ChainExec) balances() string {
 	}
 	total, pool, tok := c.Supply()
 	return fmt.Sprintf("a=%s t=%s f=%s z=%s w=%s pool=%s supply=%s toksupply=%s", strings.Join(as, ","), strings.Join(ts, ","),
-		ToUnits(st.GetBalance(cfg.ContractFoundationAddr)), ToUnits(st.GetBalance(common.EmptyAddress)), strings.Join(ps, "|"), ToUnits(pool), ToUnits(total), ToUnits(tok))
+		ToUnits(st.GetBalance(cfg.ContractFoundationAddr)), ToUnits(new(big.Int).Add(st.GetBalance(common.EmptyAddress), st.GetBalance(ContractAddr))),
+		strings.Join(ps, "|"), ToUnits(pool), ToUnits(total), ToUnits(tok))
 }
